@@ -105,6 +105,10 @@ int harness_main(void) {
     dq->underlying_array = wsd_circular_array_create(1);
     wsd_circular_array_destroy(old);
   }
+  // -Dbase=1/2: the deque has already carried 2^31-2 / 2^32-2 entries (top and bottom are
+  // free-running indices that never go back; any number of operations means any value of them)
+  int base = fmc_param("base", 0);
+  if (base) dq->top = dq->bottom = (base == 1 ? 2147483646LL : 4294967294LL);
   int pushed = 0;
   for (const char* s = scripts[shape][0]; *s; s++) pushed += *s == 'P';
   raw_run(scripts[shape][2][0] ? 3 : 2, body);
